@@ -1,6 +1,7 @@
 """pyvc core: path-splitting symbolic executor over the Python AST of the real functions,
 emitting proof obligations against sidecar contracts."""
 import ast
+import os
 import itertools
 import time
 import z3
@@ -62,7 +63,7 @@ def exc_is_sub(c, anc):
 
 class State:
     __slots__ = ('pc', 'env', 'heap', 'ghost', 'writes', 'pre', 'exc', 'trace', 'spec',
-                 'entry_env', 'loopw', 'notes')
+                 'entry_env', 'loopw', 'notes', 'tags')
 
     def __init__(self):
         self.pc = []
@@ -77,6 +78,7 @@ class State:
         self.entry_env = None
         self.loopw = None
         self.notes = ()
+        self.tags = {}
 
     def copy(self):
         s = State()
@@ -92,6 +94,7 @@ class State:
         s.entry_env = self.entry_env
         s.loopw = None if self.loopw is None else set(self.loopw)
         s.notes = self.notes
+        s.tags = dict(self.tags)
         return s
 
 
@@ -115,7 +118,7 @@ class Obligation:
 
 
 class Engine:
-    def __init__(self, source=None, reg=None, prune_ms=400):
+    def __init__(self, source=None, reg=None, prune_ms=250):
         self.src = source or Source()
         self.reg = reg or REG
         self.obls = []
@@ -132,6 +135,7 @@ class Engine:
         self._fact_ids = set()
         self.undef = []
         self.unfolding = 0
+        self.spec_prune = int(os.environ.get('PYVC_SPEC_PRUNE', '0'))
         self.quants = {}
         self._fc_memo = {}
         self.bound_depth = 0
@@ -192,7 +196,45 @@ class Engine:
         s2 = st.copy() if copy else st
         if z3.is_true(c):
             return s2
+        # datatype testers on a value whose tag is already known on this path: no solver call
+        neg = z3.is_not(c)
+        a = c.arg(0) if neg else c
+        if z3.is_app(a) and a.decl().kind() == z3.Z3_OP_DT_IS:
+            tid = a.arg(0).get_id()
+            tag = a.decl().params()[0].name() if a.decl().params() else str(a.decl())
+            known = st.tags.get(tid)
+            if known is not None:
+                if (known[0] == tag) != neg:
+                    return s2
+                return None
+            if not neg:
+                s2.tags[tid] = (tag, a)      # the term is kept alive: AST ids are reused
+        # literals already decided on this path: no solver call
+        lits = []
+        stack = [c]
+        while stack:
+            x = stack.pop()
+            if z3.is_and(x):
+                stack.extend(x.children())
+            elif z3.is_not(x):
+                lits.append((x.arg(0).get_id(), False, x))
+            else:
+                lits.append((x.get_id(), True, x))
+        decided = True
+        for k, val, _ in lits:
+            known = st.tags.get(('L', k))
+            if known is None:
+                decided = False
+            elif known[0] != val:
+                return None
+        if decided:
+            return s2
+        for k, val, x in lits:
+            s2.tags[('L', k)] = (val, x)
         s2.pc.append(cond)      # the unsimplified term: z3's rewriter splits seq.nth otherwise
+        if st.spec and self.spec_prune == 0 and not (
+                z3.is_app(a) and a.decl().kind() == z3.Z3_OP_DT_IS):
+            return s2       # spec mode: only type-tag tests are pruned with the solver
         t0 = time.time()
         sol = z3.Solver()
         sol.set('timeout', 100 if st.spec else self.prune_ms)
@@ -206,7 +248,8 @@ class Engine:
 
     def fact(self, st, ax):
         """A universally valid library-axiom instance (or a constraint on a fresh symbol)."""
-        if st.spec:
+        if st.spec or z3.is_quantifier(ax):
+            # quantified axioms are kept out of the path condition (pruning queries stay cheap)
             k = ax.get_id()
             if k not in self._fact_ids:
                 self._fact_ids.add(k)
@@ -220,6 +263,16 @@ class Engine:
         if z3.is_implies(g):
             return z3.Implies(g.arg(0), self.skolemize(g.arg(1), sk))
         q = self.quants.get(g.get_id())
+        if q is not None and q[0].is_exists():
+            t, consts, rng, body = q
+            if len(consts) == 1:
+                alts = []
+                for w in range(4):
+                    sub = (consts[0], z3.IntVal(w))
+                    alts.append(z3.And(*([z3.substitute(r, sub) for r in rng] +
+                                         [z3.substitute(body, sub)])))
+                return z3.Or(*alts + [g])
+            return g
         if q is not None:
             t, consts, rng, body = q
             subs = []
@@ -245,7 +298,7 @@ class Engine:
             out.extend(z3.Implies(p.arg(0), x) for x in sub)
             return
         q = self.quants.get(p.get_id())
-        if q is None:
+        if q is None or q[0].is_exists():
             return
         t, consts, rng, body = q
         if len(consts) != 1:
@@ -281,7 +334,7 @@ class Engine:
         """Ground index terms of seq.nth applications in t (outside quantifiers)."""
         key = ('nth', t.get_id())
         if key in self._fc_memo:
-            return self._fc_memo[key]
+            return self._fc_memo[key][0]
         out, seen, stack = [], set(), [t]
         while stack:
             x = stack.pop()
@@ -293,7 +346,7 @@ class Engine:
                 if x.decl().kind() == z3.Z3_OP_SEQ_NTH and x.num_args() == 2:
                     out.append(x.arg(1))
                 stack.extend(x.children())
-        self._fc_memo[key] = out
+        self._fc_memo[key] = (out, t)
         return out
 
     def fresh_consts(self, t):
@@ -301,7 +354,7 @@ class Engine:
         key = t.get_id()
         memo = self._fc_memo
         if key in memo:
-            return memo[key]
+            return memo[key][0]
         out = set()
         seen = set()
         stack = [t]
@@ -322,8 +375,8 @@ class Engine:
                             out.add(n)
                 else:
                     stack.extend(x.children())
-        memo[key] = frozenset(out)
-        return memo[key]
+        memo[key] = (frozenset(out), t)
+        return memo[key][0]
 
     def fork(self, st, cond):
         """yield (state, bool) for the feasible sides of cond."""
@@ -583,8 +636,9 @@ class Engine:
                 continue
             alts.append((cond, v))
         if not alts:
-            raise EngineError('spec expression undefined on every path: %s'
-                              % (src if isinstance(src, str) else ast.unparse(src)))
+            # undefined on every path that could not be pruned: the definedness condition
+            # recorded above makes a goal fail and an assumption vacuous
+            return vbool(False)
         out = alts[-1][1]
         for c, v in reversed(alts[:-1]):
             out = same_sort_merge(c, v, out)
@@ -771,6 +825,21 @@ class Engine:
                     return V(FN, ('repo', module, cls + '.' + attr, recv))
         return None
 
+    def narrow(self, st, v):
+        """If the path condition forces the tag of an ANY value, return it unboxed."""
+        if v.ty.kind != 'any':
+            return v
+        feas = []
+        for nm, rec, acc, ty in TAGS:
+            if self.assume(st, rec(v.t)) is not None:
+                feas.append((acc, ty))
+                if len(feas) > 1:
+                    return v
+        if len(feas) == 1:
+            acc, ty = feas[0]
+            return VNONE if acc is None else V(ty, acc(v.t))
+        return v
+
     def split_any(self, st, v, only=None):
         """Fork an ANY value over its feasible tags, yielding unboxed values."""
         if v.ty.kind != 'any':
@@ -902,7 +971,7 @@ class Engine:
             if isinstance(vs, Raise):
                 yield s1, vs
             else:
-                yield s1, self.lib.mklist(self, vs)
+                yield s1, self.lib.mklist(self, vs, s1)
 
     def ev_Tuple(self, e, st):
         for s1, vs in self.ev_list(e.elts, st):
